@@ -348,6 +348,25 @@ func TestC15Rapid(t *testing.T) {
 		if msg := checkC15Parse(m); msg != "" {
 			t.Fatalf("C15 violated (ParseAnnotations) on %v: %s", m, msg)
 		}
+		// a pod with many devices: 2..5 CDI keys with 1..12 devices each (the order within one key is the request's)
+		if rapid.IntRange(0, 3).Draw(t, "manyDevices") == 0 {
+			big := map[string]string{"unrelated": "x"}
+			total := 0
+			for i, nk := 0, rapid.IntRange(2, 5).Draw(t, "bigKeys"); i < nk; i++ {
+				var ds []string
+				for j, nd := 0, rapid.IntRange(1, 12).Draw(t, fmt.Sprintf("bigDevs%d", i)); j < nd; j++ {
+					ds = append(ds, fmt.Sprintf("vendor%d.com/class=dev%d", i, rapid.IntRange(0, 99).Draw(t, fmt.Sprintf("bigDev%d_%d", i, j))))
+				}
+				total += len(ds)
+				big[cdiPrefix+fmt.Sprintf("%s_%d", rapid.SampledFrom([]string{"z-plugin", "a.plugin", "m_plugin"}).Draw(t, fmt.Sprintf("bigPlugin%d", i)), i)] = strings.Join(ds, ",")
+			}
+			if msg := checkC15Parse(big); msg != "" {
+				t.Fatalf("C15 violated (ParseAnnotations) on %v: %s", big, msg)
+			}
+			if total > 12 {
+				rec.Label("parse-more-than-12-devices-over-several-keys")
+			}
+		}
 		// values nobody's helper wrote: a list of qualified names, decorated the way hand-written or templated
 		// annotations are (blanks and line ends around the value or around a comma, stray commas)
 		if rapid.Bool().Draw(t, "decorated") {
